@@ -11,6 +11,7 @@ import BSEProofs.Lemmas.G94RT
 import BSEProofs.Lemmas.G94EcpRT
 import BSEModel.TurbomoleInst
 import BSEProofs.Lemmas.TurbomoleRT
+import BSEProofs.Lemmas.TurbomoleEcpRT
 /-! # C03 — reading back what the library wrote never silently changes the basis
 
 What is proved: (1) the number tables survive print → read token for token (only the exponent marker
@@ -475,6 +476,61 @@ example :
       = some [(1, [{ ftype := "gto".toList, am := [0], exps := ["3.0", "1.0"], coefs := [["0.1", "0.9"], ["0.0", "1.0"]] }]),
               (6, [{ ftype := "gto".toList, am := [0, 1], exps := ["2.0"], coefs := [["1.0"], ["1.0"]] },
                    { ftype := "gto_spherical".toList, am := [2], exps := ["0.8"], coefs := [["1.0"]] }])] := by
+  decide +kernel
+
+/-! ## (9) Turbomole: the `$ecp` section, written then read -/
+
+open BSE.Turbomole in
+/-- the letter the Turbomole writer prints for an ECP momentum (hij table) is read back (hik table) as that momentum up to l = 6 -/
+theorem tm_ecp_letter : ∀ l ∈ List.range 7, amOfHik ([l].filterMap (amChar true)) = some [l] := by decide +kernel
+
+open BSE.Turbomole in
+/-- **limit of the pair, proved on the model**: from l = 7 on the two tables differ — `j` (l = 7) is unknown to the reader, and
+`k` (l = 8 for the writer) is read as l = 7.  No ECP of the store goes beyond l = 5. -/
+theorem tm_ecp_letter_limit :
+    amOfHik ([7].filterMap (amChar true)) = none ∧ amOfHik ([8].filterMap (amChar true)) = some [7] := by decide +kernel
+
+open BSE.Turbomole BSE.Nwchem in
+/-- **Turbomole, `$ecp` section: read(write(potentials)) = potentials**, over the library's tables: every element 1..118
+(distinct), electron counts and term counts below 400, potentials with pairwise different momenta `l ≤ 6` and at least one term
+each; what comes back is every element in order with its electron count and every potential, in write order (highest momentum
+first), with its own momentum and its terms token for token.  A gap in the momenta (l = 0, 2) or a lone local potential are
+fine here: this format writes the letter of every potential. -/
+theorem turbomole_ecp_roundtrip {ν : Type} (isNum isInt : ν → Bool) (name : List Char) (count : Nat × List Char × List (EPot ν) → Nat)
+    (els : List (Nat × List Char × List (EPot ν)))
+    (hne : els ≠ []) (hnd : (els.map (·.1)).Nodup) (hz : ∀ e ∈ els, e.1 ∈ List.range' 1 118)
+    (hcount : ∀ e ∈ els, BSE.G94.natOfStr e.2.1 = some (count e))
+    (ham : ∀ e ∈ els, (e.2.2.map (·.am)).Nodup ∧ ∀ p ∈ e.2.2, p.am < 7)
+    (hterms : ∀ e ∈ els, ∀ p ∈ e.2.2, p.terms ≠ [] ∧ ∀ t ∈ p.terms, isInt t.1 = true ∧ isNum t.2.1 = true ∧ isNum t.2.2 = true) :
+    readEcpP (realPTables isNum isInt) (ecpLinesP (realPTables isNum isInt) name els)
+      = .ok (els.map fun e => (e.1, count e, (writeOrder e.2.2).map readPotP)) := by
+  have hsym : ∀ z ∈ List.range' 1 118, zFromSym ((symFromZ z).getD []) = some z := by decide +kernel
+  have hcnt : ∀ n ∈ List.range 7, BSE.G94.natOfStr (toString n).toList = some n := by decide +kernel
+  apply readEcpP_write (realPTables isNum isInt) name count els hne hnd
+  intro e he
+  have hmax : maxAmOf e.2.2 < 7 := by
+    unfold maxAmOf
+    have : ∀ (l : List Nat) (a : Nat), a < 7 → (∀ x ∈ l, x < 7) → l.foldl max a < 7 := by
+      intro l
+      induction l with
+      | nil => intro a ha _; exact ha
+      | cons x xs ih =>
+        intro a ha hx
+        simp only [List.foldl_cons]
+        exact ih _ (by have := hx x (by simp); omega) (fun y hy => hx y (by simp [hy]))
+    exact this _ 0 (by omega) (by intro x hx; obtain ⟨p, hp, rfl⟩ := List.mem_map.1 hx; exact (ham e he).2 p hp)
+  refine ⟨hsym e.1 (hz e he), hcount e he, hcnt _ (List.mem_range.2 hmax), tm_ecp_letter _ (List.mem_range.2 hmax), ?_,
+    pShape_of_distinct e (ham e he).1⟩
+  intro p hp
+  obtain ⟨h1, h2⟩ := hterms e he p hp
+  exact ⟨h1, fun t ht => (h2 t ht).1, fun t ht => (h2 t ht).2.1, fun t ht => (h2 t ht).2.2,
+    tm_ecp_letter _ (List.mem_range.2 ((ham e he).2 p hp))⟩
+
+/-- non-vacuity: copper with potentials l = 0, 2 (a gap) comes back with its own momenta, highest first -/
+example : (BSE.Turbomole.readEcpP (BSE.Turbomole.realPTables (fun (_ : String) => true) (fun _ => true))
+      (BSE.Turbomole.ecpLinesP (BSE.Turbomole.realPTables (fun _ => true) (fun _ => true)) "X-ecp".toList [(29, "10".toList, cuGap)])).toOption
+    = some [(29, 10, [{ am := some [2], rexp := ["1"], gexp := ["0.7"], coef := ["-1.0"] },
+                       { am := some [0], rexp := ["2"], gexp := ["1.5"], coef := ["3.0"] }])] := by
   decide +kernel
 
 end BSE.Props.C03
